@@ -319,12 +319,37 @@ fn cmd_selftest(args: &Args) -> i32 {
     }
 }
 
+/// debugging aid: write scenario <campaign>#<index> of a property as a replay file
+fn cmd_gen(args: &Args) -> i32 {
+    let (prop, campaign, index) = match (args.pos.get(0), args.pos.get(1), args.pos.get(2).and_then(|s| s.parse::<u64>().ok())) {
+        (Some(p), Some(c), Some(i)) => (p.clone(), c.clone(), i),
+        _ => usage(),
+    };
+    let seed: u64 = args.opts.get("seed").and_then(|s| s.parse().ok()).unwrap_or(1);
+    let tier = tier_of(&args.opts.get("tier").cloned().unwrap_or_else(|| "quick".into()));
+    let plan = match gen::plan(&prop, tier, seed) {
+        Some(p) => p,
+        None => usage(),
+    };
+    for c in &plan {
+        if c.name == campaign {
+            let sc = (c.gen)(index);
+            let rf = evidence::ReplayFile { property: prop.clone(), class: "debug".into(), detail: String::new(), seed, sig: 0, minimised_from: serde_json::json!(null), scenario: sc };
+            println!("{}", serde_json::to_string_pretty(&rf).unwrap());
+            return 0;
+        }
+    }
+    eprintln!("no campaign {} in {}", campaign, prop);
+    2
+}
+
 fn main() {
     let args = parse_args();
     let code = match args.cmd.as_str() {
         "check" => cmd_check(&args),
         "replay" => cmd_replay(&args),
         "selftest" => cmd_selftest(&args),
+        "gen" => cmd_gen(&args),
         _ => usage(),
     };
     std::process::exit(code);
